@@ -42,6 +42,17 @@ func depthFor(tier string, c gcfg) int {
 }
 
 func buildCases(tier string, u *universe) (cs []caseDef) {
+	defer func() { // VERIF_C04_PARTS=1,3 restricts a run to some parts (debugging aid; evidence then says so)
+		if f := os.Getenv("VERIF_C04_PARTS"); f != "" {
+			var keep []caseDef
+			for _, c := range cs {
+				if strings.Contains(f, fmt.Sprint(c.Part)) {
+					keep = append(keep, c)
+				}
+			}
+			cs = keep
+		}
+	}()
 	for _, s := range u.shards() {
 		s := s
 		cs = append(cs, caseDef{Part: 1, Shard: &s})
@@ -84,9 +95,11 @@ type p1Viol struct {
 	What   string `json:"what"`
 	Case   p1Case `json:"case"`
 	Engine string `json:"engine"`
+	Tier   string `json:"tier"` // the type universe (and so the meaning of variant/export indices) depends on the tier
 }
 
 type childState struct {
+	tier      string
 	u         *universe
 	p1        *p1Env
 	p2        *p2Env
@@ -138,7 +151,7 @@ func (cs *childState) runCase(cd caseDef) caseResult {
 				}
 				cs.confirmed["1|"+engine+"|"+sig] = true
 			}
-			b, _ := json.Marshal(p1Viol{sig, what, c, engine})
+			b, _ := json.Marshal(p1Viol{sig, what, c, engine, cs.tier})
 			res.Viols = append(res.Viols, b)
 		})
 		res.Pairs = setKeys(pairs)
@@ -249,9 +262,10 @@ func doReplay(file string) {
 		var r struct {
 			Case   p1Case `json:"case"`
 			Engine string `json:"engine"`
+			Tier   string `json:"tier"`
 		}
 		json.Unmarshal(doc.Replay, &r)
-		u := newUniverse()
+		u := newUniverse(r.Tier)
 		for _, en := range engineNames {
 			res := replayP1(u, r.Case, en, func(s string) { fmt.Println(s) })
 			_, sig, what := u.p1Judge(r.Case, en, res)
@@ -310,12 +324,12 @@ func main() {
 		doReplay(os.Args[2])
 	}
 	run := fw.Start("C04", "model_checking")
-	u := newUniverse()
+	u := newUniverse(run.Tier)
 	cases := buildCases(run.Tier, u)
 
 	if fw.IsChild() {
 		debug.SetGCPercent(1000) // the live heap is a few MB; instantiating graphs produces garbage quickly
-		cs := &childState{u: u, ops: map[string][]opDef{}, confirmed: map[string]bool{}}
+		cs := &childState{tier: run.Tier, u: u, ops: map[string][]opDef{}, confirmed: map[string]bool{}}
 		fw.ChildLoop(func(i int) string {
 			b, err := json.Marshal(cs.runCase(cases[i]))
 			if err != nil {
@@ -332,7 +346,7 @@ func main() {
 	var p1Evals, p2Evals, steps, na, reads, engcmp, crashes int64
 	var flaky []string
 	stopped := false
-	done := fw.Supervise(fw.SupOpts{N: len(cases), Workers: runtime.NumCPU(), CaseTimeout: 5 * time.Minute, UlimitVKB: 0, Mode: "c04",
+	done := fw.Supervise(fw.SupOpts{N: len(cases), Workers: runtime.NumCPU(), CaseTimeout: 15 * time.Minute, UlimitVKB: 0, Mode: "c04",
 		Stop: func() bool {
 			if run.Expired() {
 				stopped = true
@@ -398,6 +412,9 @@ func main() {
 				run.Violation(head.Sig, head.What, body)
 			}
 		})
+	if f := os.Getenv("VERIF_C04_PARTS"); f != "" {
+		run.Capped("restricted to parts " + f)
+	}
 	if stopped || done < len(cases) {
 		run.Capped(fmt.Sprintf("budget: %d of %d cases completed", done, len(cases)))
 	}
